@@ -278,6 +278,13 @@ def r_class_roundtrip(rep, prog):
         tm = T.Terms(b, prog)
         rets = [T.canon(T.strip_casts(tm.call_term(bi) if si == "term" else tm.rvalue(rv))) for bi, si, rv in lib.assignments_to_return(b)]
         good = rets == [want]
+        if not good and len(rets) == 1 and rets[0][0] == "agg" and want[0] == "agg" and rets[0][2]:
+            # masking with the full field mask (2^BITS - 1) is the identity on every storable value
+            BITS = prog.crate("llfree").const("llfree::Class::BITS")
+            inner = rets[0][2][0]
+            if inner[0] == "bin" and inner[1] == "BitAnd" and ("p", "bits") in (inner[2], inner[3]) and BITS is not None and \
+                    ("c", (1 << BITS) - 1) in (inner[2], inner[3]):
+                good = True
         rep.check(good, rule, fn, "identity", "%s is not the identity on the class number (%s): classes are aliased when they are read "
                   "back from a tree entry" % (fn, rets), b.span)
 
